@@ -46,7 +46,7 @@ COMPONENTS = {
 ASSUMPTIONS = ['two threads never import the same module (import-system module locks stay real and are avoided, not modelled)',
                'torn or bit-flipped pyc contents and same-mtime-same-size edits are not injected (CPython itself does not survive them)',
                'concurrency between *processes* on one cache directory is not simulated']
-PROBES = ['reconf_between_runs', 'edits', 'crashes', 'threaded_runs', 'preempted_runs', 'cache_hits', 'hooked_and_unhooked_concurrently',
+PROBES = ['reconf_between_runs', 'edits', 'crashes', 'threaded_runs', 'preempted_runs', 'cache_hits', 'hooked_and_unhooked_concurrently', 'failed_imports',
           'pyc_files_checked', 'scoped_runs', 'reexec_after_hook_off']
 
 PKG = 'c16pkg'
@@ -118,6 +118,8 @@ def module_source(spec):
         '    except Exception as e:',
         '        RESULT["pep526"] = type(e).__name__',
         '_probe()',
+        # a module that does not compile (until an edit repairs it): importing it raises inside the loader's get_code()
+        'def (:' if spec.get('broken') else '',
         '# %s' % pad,
     ]
     return '\n'.join(l for l in lines if l != '') + '\n'
@@ -158,6 +160,9 @@ def generate(rng, run, tier):
                      'ptype': rng.choice(['int', 'str', 'list[int]']), 'pad': ''})
     if not any(m['sub'] == 'h' for m in mods):
         mods[0]['sub'] = 'h'
+    for m in mods:
+        if rng.random() < 0.1:
+            m['broken'] = True
     for i in range(1, nmods):
         if rng.random() < 0.35:
             j = rng.randrange(i)        # only towards lower indices: no cycles
@@ -446,6 +451,7 @@ def _apply_edits(root, mods, rs, clock):
         m = mods[e['mod']]
         old_size = len(module_source(m))
         m['v'] += 1
+        m['broken'] = False         # (an edit repairs a module that did not compile)
         if e['same_size']:
             # keep the byte size identical to the previous version when possible (only the mtime tells)
             m['pad'] = ''
@@ -515,6 +521,7 @@ def _execute(case, runner):
                     probes['hooked_and_unhooked_concurrently'] += 1
             if obs.get('crashed'):
                 probes['crashes'] += 1
+            probes['failed_imports'] += sum(1 for v in obs.get('mods', {}).values() if isinstance(v, dict) and 'import_error' in v)
             if rs.get('scoped') and rs['hook'] != 'off':
                 probes['scoped_runs'] += 1
                 probes['reexec_after_hook_off'] += sum(1 for n in obs.get('mods', {}) if n.endswith(':reexec'))
